@@ -58,8 +58,7 @@ func (h *JsonHandler) WithAttrs(attrs []slog.Attr) Handler {
 
 	h2 := h.clone()
 	for _, a := range attrs {
-		appendJsonAttr(&h2.preformatted, a, h2.addSep, h2.Options.colorful)
-		h2.addSep = true
+		h2.addSep = appendJsonAttr(&h2.preformatted, a, h2.addSep, h2.Options.colorful)
 	}
 	return h2
 }
@@ -124,8 +123,7 @@ func (h *JsonHandler) Handle(_ context.Context, r slog.Record) error {
 	if r.NumAttrs() > 0 {
 		addSep := h.addSep
 		r.Attrs(func(a slog.Attr) bool {
-			appendJsonAttr(buf, a, addSep, h.Options.colorful)
-			addSep = true
+			addSep = appendJsonAttr(buf, a, addSep, h.Options.colorful)
 			return true
 		})
 	}
@@ -140,33 +138,39 @@ func (h *JsonHandler) Handle(_ context.Context, r slog.Record) error {
 	return err
 }
 
-func appendJsonAttr(buf *[]byte, a slog.Attr, addSep bool, colorful bool) {
-	if addSep {
-		*buf = append(*buf, ',')
-		addSep = false
-	}
-
+// appendJsonAttr appends the attr as object members, preceded by a comma if addSep is true.
+// It reports whether the next member needs a leading comma: an inline group without members appends nothing.
+func appendJsonAttr(buf *[]byte, a slog.Attr, addSep bool, colorful bool) bool {
 	a.Value = a.Value.Resolve()
 	if a.Value.Kind() == slog.KindGroup {
-		if len(a.Key) > 0 {
-			*buf = append(*buf, '"')
-			appendJsonString(buf, a.Key)
-			*buf = append(*buf, '"', ':', '{')
+		if len(a.Key) == 0 {
+			for _, aa := range a.Value.Group() {
+				addSep = appendJsonAttr(buf, aa, addSep, colorful)
+			}
+			return addSep
 		}
+		if addSep {
+			*buf = append(*buf, ',')
+		}
+		*buf = append(*buf, '"')
+		appendJsonString(buf, a.Key)
+		*buf = append(*buf, '"', ':', '{')
+		addSep = false
 		for _, aa := range a.Value.Group() {
-			appendJsonAttr(buf, aa, addSep, colorful)
-			addSep = true
+			addSep = appendJsonAttr(buf, aa, addSep, colorful)
 		}
-		if len(a.Key) > 0 {
-			*buf = append(*buf, '}')
-		}
-		return
+		*buf = append(*buf, '}')
+		return true
 	}
 
+	if addSep {
+		*buf = append(*buf, ',')
+	}
 	*buf = append(*buf, '"')
 	appendJsonString(buf, a.Key)
 	*buf = append(*buf, '"', ':')
 	appendJsonValue(buf, a.Value, colorful)
+	return true
 }
 
 func appendJsonValue(buf *[]byte, v slog.Value, colorful bool) {
